@@ -15,7 +15,9 @@ def make_groups(ctx, per, only=None):
     for g in GROUPS:
         names = [n for n in g if only is None or n in only]
         if names:
-            out.append([(n, ctx.rng.randrange(10 ** 6)) for n in names for _ in range(per if n != "distances" else 6 * per)])
+            # consecutive seeds: zoo.grid() walks through the discrete parameter grid of each estimator
+            out.append([(n, base + i) for n in names for base in [1000 * ctx.rng.randrange(1000)]
+                        for i in range(per if n != "distances" else 6 * per)])
     return out
 
 
